@@ -75,7 +75,7 @@ func VerifyFunction(prog *ssa.Program, db *ContractDB, fn *ssa.Function, fc *Fun
 		fv.fail("function has no body")
 		return
 	}
-	st := &State{enc: enc, regs: map[ssa.Value]Value{}, cells: map[ssa.Value]Value{}, heap: map[string]Term{}, prefEp: map[string]int{}, inLoop: map[*ssa.BasicBlock]bool{}, unroll: map[*ssa.BasicBlock]int{}, decr: map[*ssa.BasicBlock]Term{}, rangePos: map[ssa.Value]Term{}, promoted: map[ssa.Value]Term{}}
+	st := &State{enc: enc, regs: map[ssa.Value]Value{}, cells: map[ssa.Value]Value{}, heap: map[string]Term{}, prefEp: map[string]int{}, inLoop: map[*ssa.BasicBlock]bool{}, unroll: map[*ssa.BasicBlock]int{}, decr: map[*ssa.BasicBlock]Term{}, rangePos: map[ssa.Value]Term{}, promoted: map[ssa.Value]Term{}, allocSeq: map[ssa.Value]int{}}
 	st.hwm = enc.declare("hwm0", SInt)
 	st.assume(Gt(st.hwm, I(0)))
 	enc.epochHwm[0] = st.hwm
@@ -135,45 +135,55 @@ func VerifyFunction(prog *ssa.Program, db *ContractDB, fn *ssa.Function, fc *Fun
 	ob := fv.addOb(st, "cover", "cover:pre", TrueT, "precondition satisfiable", token.NoPos)
 	ob.Cover = true
 	fv.pre = st.clone()
+	enc.frameHook = fv.loopFrameAxiom
 	fv.findLoops()
 	if len(fv.errs) > 0 {
 		return
 	}
-	fv.runBlock(st, fn.Blocks[0])
+	// loops that are unrolled follow their back edges: use path enumeration for those functions;
+	// everything else is executed block-wise with state merging at join points
+	dfs := fc.Mode == "paths"
+	for _, li := range fv.loops {
+		if li.lc != nil && li.lc.Unroll > 0 {
+			dfs = true
+		}
+	}
+	if dfs {
+		fv.runBlock(st, fn.Blocks[0])
+	} else {
+		fv.runMerged(st)
+	}
 	return
 }
 
-// checkFrame emits frame obligations at a return site when the contract has a modifies clause.
-func (fv *FuncVerifier) checkFrame(st *State, retIdx int, pos token.Pos) {
+type frameAllow struct {
+	prefix string
+	obj    *Term // nil = whole prefix
+}
+
+// frameAllows evaluates the modifies clause in the pre-state (cached).
+func (fv *FuncVerifier) frameAllows() []frameAllow {
+	if fv.allowsDone {
+		return fv.allows
+	}
+	fv.allowsDone = true
 	fc := fv.fc
-	if !fc.HasModifies {
-		return
-	}
-	if st.epoch != fv.pre.epoch {
-		fv.addOb(st, "frame", fmt.Sprintf("frame:*@ret%d", retIdx), FalseT, "whole heap havocked by an unspecified call; frame cannot be established", pos)
-		return
-	}
 	env := fv.preEnv(fv.pre)
-	// allowed locations per heap prefix
-	type allow struct {
-		prefix string
-		obj    *Term // nil = whole prefix
-	}
-	var allows []allow
+	var allows []frameAllow
 	for _, m := range fc.Modifies {
 		switch x := m.E.(type) {
 		case *SField:
 			base := env.eval(x.X)
 			t, _ := derefType(base.Typ)
 			o := base.L[0]
-			allows = append(allows, allow{"H_" + typeKey(t) + "." + x.Name, &o})
+			allows = append(allows, frameAllow{"H_" + typeKey(t) + "." + x.Name, &o})
 		case *SCall:
 			switch x.Fn {
 			case "elems":
 				sv := env.eval(x.Args[0])
 				sl := sv.Typ.Underlying().(*types.Slice)
 				o := sv.L[0]
-				allows = append(allows, allow{"E_" + typeKey(sl.Elem()), &o})
+				allows = append(allows, frameAllow{"E_" + typeKey(sl.Elem()), &o})
 			case "deref":
 				pv := env.eval(x.Args[0])
 				if pv.Place != nil {
@@ -183,27 +193,94 @@ func (fv *FuncVerifier) checkFrame(st *State, retIdx int, pos token.Pos) {
 				o := pv.L[0]
 				switch u := t.Underlying().(type) {
 				case *types.Struct:
-					allows = append(allows, allow{"H_" + typeKey(t), &o})
+					allows = append(allows, frameAllow{"H_" + typeKey(t), &o})
 				case *types.Array:
-					allows = append(allows, allow{"E_" + typeKey(u.Elem()), &o})
+					allows = append(allows, frameAllow{"E_" + typeKey(u.Elem()), &o})
 				default:
-					allows = append(allows, allow{"C_" + typeKey(t), &o})
+					allows = append(allows, frameAllow{"C_" + typeKey(t), &o})
 				}
 			case "all":
-				allows = append(allows, allow{fv.prefixOfTypeField(env, typeExprString(x.Args[0])), nil})
+				allows = append(allows, frameAllow{fv.prefixOfTypeField(env, typeExprString(x.Args[0])), nil})
 			case "ghost":
-				allows = append(allows, allow{"GH_" + x.Args[0].(*SIdent).Name, nil})
+				allows = append(allows, frameAllow{"GH_" + x.Args[0].(*SIdent).Name, nil})
 			case "locks":
-				allows = append(allows, allow{"LK_", nil})
+				allows = append(allows, frameAllow{"LK_", nil})
 			}
 		case *SIdent:
 			if fields, ok := fv.db.Regions[x.Name]; ok {
 				for _, f := range fields {
-					allows = append(allows, allow{fv.prefixOfTypeField(env, f), nil})
+					allows = append(allows, frameAllow{fv.prefixOfTypeField(env, f), nil})
 				}
-				allows = append(allows, allow{"M_", nil})
+				allows = append(allows, frameAllow{"M_", nil})
 			}
 		}
+	}
+	fv.allows = allows
+	return allows
+}
+
+// frameGoal: "cur differs from the entry version of heap array name only at allowed objects".
+// ok=false when the whole array may change.
+func (fv *FuncVerifier) frameGoal(name, sortS string, cur Term) (Term, bool) {
+	old := fv.pre.heapArr(name, sortS)
+	if cur.S == old.S {
+		return TrueT, true
+	}
+	whole := false
+	var objs []Term
+	for _, a := range fv.frameAllows() {
+		if strings.HasPrefix(name, a.prefix) {
+			if a.obj == nil {
+				whole = true
+			} else {
+				objs = append(objs, *a.obj)
+			}
+		}
+	}
+	if whole {
+		return TrueT, false
+	}
+	if !strings.HasPrefix(sortS, "(Array") {
+		return Eq(cur, old), true
+	}
+	r := Term{"r!f", SInt}
+	conds := []Term{Lt(r, fv.pre.hwm)}
+	for _, o := range objs {
+		conds = append(conds, Not(Eq(r, o)))
+	}
+	return Forall([]string{"r!f"}, Implies(And(conds...), Eq(Select(cur, r), Select(old, r)))), true
+}
+
+// loopFrameAxiom is called when a heap array version created by a loop havoc is materialised:
+// the loop frame (checked at every back edge) says it agrees with the entry version outside
+// the function's modifies clause.
+func (fv *FuncVerifier) loopFrameAxiom(name string, t Term, sortS string) {
+	if fv.fc == nil || !fv.fc.HasModifies || fv.pre == nil {
+		return
+	}
+	if strings.HasPrefix(name, "LK_") || strings.HasPrefix(name, "M_") {
+		return
+	}
+	g, ok := fv.frameGoal(name, sortS, t)
+	if ok && g.S != "true" {
+		fv.enc.addAxiom(g.S)
+	}
+}
+
+// checkFrame emits frame obligations at a return site (label "ret<k>") or at a loop back edge
+// (label "L<k>@b<j>") when the contract has a modifies clause.
+func (fv *FuncVerifier) checkFrame(st *State, retIdx int, pos token.Pos) {
+	fv.checkFrameAt(st, fmt.Sprintf("ret%d", retIdx), pos)
+}
+
+func (fv *FuncVerifier) checkFrameAt(st *State, label string, pos token.Pos) {
+	fc := fv.fc
+	if !fc.HasModifies {
+		return
+	}
+	if st.epoch != fv.pre.epoch {
+		fv.addOb(st, "frame", fmt.Sprintf("frame:*@%s", label), FalseT, "whole heap havocked by an unspecified call; frame cannot be established", pos)
+		return
 	}
 	// every heap array known to the encoder
 	names := map[string]bool{}
@@ -222,43 +299,17 @@ func (fv *FuncVerifier) checkFrame(st *State, retIdx int, pos token.Pos) {
 		sorted = append(sorted, k)
 	}
 	sort.Strings(sorted)
-	hwm0 := fv.pre.hwm
 	for _, name := range sorted {
 		if strings.HasPrefix(name, "LK_") && !fv.locksInFrame() {
 			continue
 		}
 		sortS := fv.enc.heapSort(name)
 		cur := st.heapArr(name, sortS)
-		old := fv.pre.heapArr(name, sortS)
-		if cur.S == old.S {
+		goal, ok := fv.frameGoal(name, sortS, cur)
+		if !ok || goal.S == "true" {
 			continue
 		}
-		whole := false
-		var objs []Term
-		for _, a := range allows {
-			if strings.HasPrefix(name, a.prefix) {
-				if a.obj == nil {
-					whole = true
-				} else {
-					objs = append(objs, *a.obj)
-				}
-			}
-		}
-		if whole {
-			continue
-		}
-		var goal Term
-		if !strings.HasPrefix(sortS, "(Array") {
-			goal = Eq(cur, old)
-		} else {
-			r := Term{"r!f", SInt}
-			conds := []Term{Lt(r, hwm0)}
-			for _, o := range objs {
-				conds = append(conds, Not(Eq(r, o)))
-			}
-			goal = Forall([]string{"r!f"}, Implies(And(conds...), Eq(Select(cur, r), Select(old, r))))
-		}
-		fv.addOb(st, "frame", fmt.Sprintf("frame:%s@ret%d", name, retIdx), goal, "only locations in the modifies clause change", pos)
+		fv.addOb(st, "frame", fmt.Sprintf("frame:%s@%s", name, label), goal, "only locations in the modifies clause change", pos)
 	}
 }
 
